@@ -125,11 +125,27 @@ def model_input(eng, ob, timeout_s):
 
 
 # ---------------------------------------------------------------- proof units
-def verify_contract(fid, tier, timeout_s):
+def relevant_clause(con, oid, prop):
+    """does the obligation belong to the chain of this property (clause_props of the contract)?"""
+    if prop is None:
+        return True
+    clause = oid.split("#", 1)[1]
+    rel = [ps for pre, ps in con.clause_props.items() if clause.startswith(pre)]
+    return not rel or any(prop in ps for ps in rel)
+
+
+def verify_contract(fid, tier, timeout_s, prop=None):
     con = C.CONTRACTS[fid]
     g = engine.generate(con)
     eng, obs = g["engine"], g["obligations"]
-    rec = dict(contract=fid, error=g["error"], gen_seconds=round(g["seconds"], 3), obligations={}, n_vcs=len(obs),
+    n_all = len(obs)
+    # obligations of clauses that serve other properties only are generated (they count for the vacuity guard) but
+    # not discharged in this property's run
+    obs = [ob for ob in obs if relevant_clause(con, ob.oid, prop)]
+    # clauses the contract declares out of the solvers' reach are left to the bounded stand-in without an attempt
+    declared = [ob for ob in obs if any(("#post.%s@" % c) in ob.oid or ob.oid.endswith("#post." + c) for c in con.bounded_clauses)]
+    obs = [ob for ob in obs if ob not in declared]
+    rec = dict(contract=fid, error=g["error"], gen_seconds=round(g["seconds"], 3), obligations={}, n_vcs=n_all,
                notes=[], assumptions=[], ast_hash=None, callees=[])
     if eng is None:
         return rec, None, []
@@ -160,6 +176,10 @@ def verify_contract(fid, tier, timeout_s):
                                        solvers=sorted({str(r["solver"]) for r in rs if r["solver"]}),
                                        kind=rs[0]["ob"].kind, text=rs[0]["ob"].text[:200],
                                        lines=sorted({r["ob"].line for r in rs}))
+    for ob in declared:
+        rec["obligations"].setdefault(ob.oid, dict(status="undecided", vcs=0, seconds=0.0, solvers=[], kind=ob.kind, text=ob.text[:200],
+                                                   lines=[ob.line], note="declared bounded in the contract: no solver attempt"))
+        rec["obligations"][ob.oid]["vcs"] += 1
     return rec, eng, res
 
 
@@ -276,7 +296,7 @@ def run_property(prop, tier, seed, t0):
     spec = dict(spec)
     spec["bounded"] = list(spec.get("bounded", [])) + [fid for fid, c in C.CONTRACTS.items() if prop in c.serves and c.bounded_only]
     for fid in sorted(proof_ids):
-        rec, eng, res = verify_contract(fid, tier, timeout_s)
+        rec, eng, res = verify_contract(fid, tier, timeout_s, prop)
         functions.append(rec)
         if rec["error"]:
             errors.append("%s: %s" % (fid, rec["error"]))
